@@ -27,7 +27,7 @@ Ev == Line(c, Len(hist)).ev[idx + 1]
 Us(id) == SelectSeq(Ev, LAMBDA e : e[1] = id /\ e[2] = "u")
 Ls(id) == SelectSeq(Ev, LAMBDA e : e[1] = id /\ e[2] = "l")
 PosOfU(id) == CHOOSE i \in 1..Len(Ev) : Ev[i][1] = id /\ Ev[i][2] = "u"
-RawQ == QFrac(hist[Len(hist)], Unit)
+RawQ == QFrac(IF hist[Len(hist)] = 2147483647 THEN 0 ELSE hist[Len(hist)], Unit)
 IsRaw(o) == OIsSome(o) /\ QClose(OQ(o), RawQ, QMul(QPow10Neg(12), QMax(QOne, QAbs(RawQ))))
 
 Binary == Cfg.k \in BinaryKinds
